@@ -457,7 +457,7 @@ def _pids_back(k, resp):
         out["process"] = back(out["process"])
     i = out.get("info")
     if isinstance(i, dict):
-        if "started" in i:
+        if isinstance(i.get("started"), list):         # the pid lists of start / restart / reload (a process info has a float there)
             out["info"] = {kk: (sorted(back(x) for x in vv) if isinstance(vv, list) else vv) for kk, vv in i.items()}
         else:
             out["info"] = {back(kk): vv for kk, vv in i.items()}
@@ -716,7 +716,7 @@ class Sim(object):
         kern = self.k
 
         def get_info(process=None, interval=0, with_childs=False):
-            if kern.state_of(process.pid) == "g":
+            if kern.state_of(kern.inn(process.pid)) == "g":
                 raise psutil.NoSuchProcess(process.pid)
             return {"pid": process.pid}
         self._saved.append((P, "get_info", P.get_info))
